@@ -8,7 +8,7 @@ from sa.astx import call_attr, call_name, module_consts, names_read, src, statem
 from sa.domains import escaper_problems, replace_chain
 from sa.selftest import Mutant, Silent
 from sa.source import AnalysisError, class_assigns, methods
-from sa.props._lib_i import (COMPAT, BlockRaised, Model, NotPure, Raised, eval_block, interp, module_env, peval, words)
+from sa.props._lib_i import (sect, COMPAT, BlockRaised, Model, NotPure, Raised, eval_block, interp, module_env, peval, words)
 
 PROPERTY = "C43"
 IRC = "words/protocols/irc.py"
@@ -310,9 +310,13 @@ def check(ctx):
     mod = ctx.mod(IRC)
     env = module_env(mod)
     cenv = module_consts(mod)
-    low = _check_quoting(ctx, env, cenv, "low-level", "lowQuote", "lowDequote", "M_QUOTE", "mQuoteTable", "mDequoteTable", ("NUL", "NL", "CR"))
-    _check_quoting(ctx, env, cenv, "ctcp", "ctcpQuote", "ctcpDequote", "X_QUOTE", "xQuoteTable", "xDequoteTable", ("X_DELIM",))
-    _check_send_path(ctx, env, low)
+    low = []
+    with sect(ctx, "low-level quoting"):
+        low = _check_quoting(ctx, env, cenv, "low-level", "lowQuote", "lowDequote", "M_QUOTE", "mQuoteTable", "mDequoteTable", ("NUL", "NL", "CR"))
+    with sect(ctx, "CTCP quoting"):
+        _check_quoting(ctx, env, cenv, "ctcp", "ctcpQuote", "ctcpDequote", "X_QUOTE", "xQuoteTable", "xDequoteTable", ("X_DELIM",))
+    with sect(ctx, "send path"):
+        _check_send_path(ctx, env, low)
 
 
 MUTANTS = [
